@@ -3,6 +3,7 @@ package simrt
 import (
 	"fmt"
 	"runtime/debug"
+	"sync"
 	"unsafe"
 )
 
@@ -48,6 +49,7 @@ type RunResult struct {
 	Overrun   []int // tasks that exceeded their step budget (never resumed)
 	Panics    map[int]string
 	Conflicts []Conflict
+	Spawned   int // tasks created by go statements of repository code during the run
 	Log       []AccessRec // when LogAccesses
 }
 
@@ -103,28 +105,16 @@ func RunTasks(fns []func(), budget []int64, choose Chooser) RunResult {
 	mainVC[0] = 1
 	schedBk = make(chan struct{})
 	finish := make(chan struct{})
+	finishCh = finish
 	allTasks = make([]*task, n)
-	res := RunResult{Steps: make([]int64, n), Panics: map[int]string{}}
+	res := RunResult{Panics: map[int]string{}}
 	for i := range fns {
 		t := &task{id: i + 1, gate: make(chan struct{}), budget: budget[i], vc: append([]uint64(nil), mainVC...)}
 		t.vc[t.id] = 1
 		allTasks[i] = t
-		fn := fns[i]
-		go func() {
-			<-t.gate
-			func() {
-				defer func() {
-					if r := recover(); r != nil {
-						t.panicVal = r
-					}
-				}()
-				fn()
-			}()
-			t.done = true
-			schedBk <- struct{}{}
-			<-finish // keep the goroutine (and its stack) alive until the run ends
-		}()
+		startTask(t, fns[i], finish)
 	}
+	wgCount = map[*sync.WaitGroup]int{}
 	schedActive, Acc, accActive = true, true, true
 	last, lastSite := 0, uint32(0)
 	idle := 0 // consecutive segments that ended blocked with zero progress
@@ -199,6 +189,8 @@ func RunTasks(fns []func(), budget []int64, choose Chooser) RunResult {
 	}
 	schedActive, Acc, accActive = false, false, false
 	curTask = nil
+	res.Steps = make([]int64, len(allTasks))
+	res.Spawned = len(allTasks) - n
 	for i, t := range allTasks {
 		res.Steps[i] = t.steps
 		if t.overrun {
@@ -217,6 +209,112 @@ func RunTasks(fns []func(), budget []int64, choose Chooser) RunResult {
 	}
 	shadowReset()
 	return res
+}
+
+var finishCh chan struct{}
+
+// startTask parks a goroutine that will run fn as task t when first scheduled.
+func startTask(t *task, fn func(), finish chan struct{}) {
+	go func() {
+		<-t.gate
+		func() {
+			defer func() {
+				if r := recover(); r != nil {
+					t.panicVal = r
+				}
+			}()
+			fn()
+		}()
+		t.done = true
+		schedBk <- struct{}{}
+		<-finish // keep the goroutine (and its stack) alive until the run ends
+	}()
+}
+
+// ---- go statements and WaitGroups ----
+//
+// Under the scheduler `go f(x)` creates one more simulated task (the spawner's clock is
+// inherited: everything before the go statement happens before the new task). Outside
+// the scheduler exactly one goroutine may run repository code (the simulator's state is
+// not shared), so the call is queued and run when the spawner waits on a WaitGroup, or
+// when the guarded library call returns (DrainGo): one legal schedule, the same in every
+// process.
+
+// ChildBudget bounds the steps of a spawned task.
+var ChildBudget int64 = 5_000_000
+
+var pendingGo []func()
+
+func spawn(fn func()) {
+	if !schedActive || curTask == nil {
+		pendingGo = append(pendingGo, fn)
+		return
+	}
+	p := curTask
+	id := len(allTasks) + 1
+	t := &task{id: id, gate: make(chan struct{}), budget: ChildBudget, vc: append([]uint64(nil), p.vc...)}
+	for len(t.vc) <= id {
+		t.vc = append(t.vc, 0)
+	}
+	t.vc[id] = 1
+	p.vc[p.id]++
+	allTasks = append(allTasks, t)
+	startTask(t, fn, finishCh)
+	syncPoint()
+}
+
+// DrainGo runs the calls queued by go statements outside the scheduler (and whatever
+// they queue in turn). The harness calls it before a guarded library call returns.
+func DrainGo() {
+	for len(pendingGo) > 0 {
+		fn := pendingGo[0]
+		pendingGo = pendingGo[1:]
+		fn()
+	}
+}
+
+func Go0(f func())                        { spawn(f) }
+func Go1[A any](f func(A), a A)           { spawn(func() { f(a) }) }
+func Go2[A, B any](f func(A, B), a A, b B) { spawn(func() { f(a, b) }) }
+func Go3[A, B, C any](f func(A, B, C), a A, b B, c C) {
+	spawn(func() { f(a, b, c) })
+}
+func Go4[A, B, C, D any](f func(A, B, C, D), a A, b B, c C, d D) {
+	spawn(func() { f(a, b, c, d) })
+}
+
+var wgCount = map[*sync.WaitGroup]int{}
+
+func WGAdd(wg *sync.WaitGroup, n int) {
+	wgCount[wg] += n
+	if wgCount[wg] < 0 {
+		panic("sync: negative WaitGroup counter")
+	}
+	if n < 0 {
+		SyncRelease(unsafe.Pointer(wg))
+		syncPoint()
+	}
+}
+
+func WGDone(wg *sync.WaitGroup) { WGAdd(wg, -1) }
+
+func WGWait(wg *sync.WaitGroup) {
+	if !schedActive || curTask == nil {
+		for wgCount[wg] > 0 {
+			if len(pendingGo) == 0 {
+				panic(ErrDeadlock)
+			}
+			fn := pendingGo[0]
+			pendingGo = pendingGo[1:]
+			fn()
+		}
+		return
+	}
+	for wgCount[wg] > 0 {
+		blockYield()
+	}
+	SyncAcquire(unsafe.Pointer(wg))
+	syncPoint()
 }
 
 // ---- happens-before edges of modelled synchronisation ----
